@@ -49,7 +49,8 @@ PROBES = ["remove_first_value", "remove_last_value", "remove_middle_value",
           "long_lived_dict_view", "reference_iterator_opened",
           "streaming_removal_through_iterator", "later_value_removed_while_iterator_suspended",
           "field_added_while_view_open", "field_moved_while_view_open",
-          "two_views_of_the_same_field", "append_on_a_new_line"]
+          "two_views_of_the_same_field", "append_on_a_new_line",
+          "committed_view_entered_again", "stale_reference_refused", "same_text_assigned_again"]
 
 WSV = ["amd64", "i386", "any", "linux-any", "x", "a1", "#h", "!hurd", "[x]", "ü"]
 ODD_BLANKS = ["\x0c", "\x85", "\u2028", "\x1c"]      # white space, but not line ends
@@ -158,7 +159,8 @@ def generate(seed, run, tier):
          "replace": rs.choice([0, 1, 2]), "ref_set": rs.choice([0, 1, 2]),
          "ref_remove": rs.choice([0, 1, 2]), "commit": rs.choice([2, 3]),
          "abort": rs.choice([0, 0, 1]), "bad": rs.choice([0, 1]), "gc": rs.choice([0, 1])}
-    w.update({"append_nl": rs.choice([0, 1, 2]),
+    w.update({"reopen": rs.choice([0, 0, 1, 2]), "stale_ref": rs.choice([0, 0, 1]),
+              "append_nl": rs.choice([0, 1, 2]),
               "it_open": rs.choice([0, 1, 2]), "it_next": rs.choice([0, 2, 4]),
               "add_field": rs.choice([0, 0, 1]), "move_field": rs.choice([0, 0, 1])})
     kindsl = [k for k, v in w.items() for _ in range(v)]
@@ -174,6 +176,8 @@ def generate(seed, run, tier):
         st = {"op": k, "field": f}
         if same_field and rq.random() < 0.35:
             st["vi"] = 1          # the second client's view of the same field
+        if k == "stale_ref":
+            st["val"] = rq.choice(WSV if kinds[f] == "ws" else CMV)
         if k == "it_next":
             st["act"] = rq.choice(["none", "none", "set", "remove"])
             st["val"] = rq.choice(WSV if kinds[f] == "ws" else CMV)
@@ -200,6 +204,27 @@ def generate(seed, run, tier):
             st["how"] = rq.choice(["append", "replace", "ref_set"])
             st["which"] = rq.choice([0, -1])
         steps.append(st)
+    if same_field and rs.random() < 0.3:
+        # two sessions of one view object around another writer of the same field
+        f = rq.choice(listnames)
+        pool = WSV if kinds[f] == "ws" else CMV
+        first = rq.choice([{"op": "ref_set", "field": f, "which": rq.choice([0, -1]),
+                            "val": rq.choice(pool), "held": False},
+                           {"op": "ref_remove", "field": f, "which": rq.choice([0, -1]),
+                            "held": False},
+                           {"op": "append", "field": f, "val": rq.choice(pool)}])
+        second = rq.choice([{"op": "ref_set", "field": f, "which": rq.choice([0, -1]),
+                             "same": True, "val": "", "held": False},
+                            {"op": "stale_ref", "field": f, "val": rq.choice(pool)},
+                            {"op": "replace", "field": f, "which": 0, "same": True, "val": ""},
+                            None])
+        steps += [{"op": "open", "field": f, "interp": kinds[f]}, first,
+                  {"op": "commit", "field": f},
+                  {"op": "open", "field": f, "interp": kinds[f], "vi": 1},
+                  {"op": "append", "field": f, "val": rq.choice(pool), "vi": 1},
+                  {"op": "commit", "field": f, "vi": 1},
+                  {"op": "reopen", "field": f}] + ([second] if second else []) + \
+                 [{"op": "commit", "field": f}]
     # close everything at the end so that every change gets judged
     for f in listnames:
         steps.append({"op": "commit", "field": f})
@@ -262,6 +287,7 @@ def execute(case):
         raise Violation("initial-dump-differs", "parse", {"got": f.dump(), "want": text})
     para = next(iter(f))
     views = {}     # field -> dict(view, model list, changed, held refs {slot id: ref}, slots)
+    closed = {}    # view objects that were committed and may be entered again
     open_order = []
     inter = []
     committed_changed = 0
@@ -362,6 +388,26 @@ def execute(case):
             pi, j = _find(doc, name)
             seg = doc.paras[pi][j]
             vkey = name if not st.get("vi") else name + "#2"
+            if op == "reopen":
+                # the client enters a view object it has already committed once; its list is
+                # what it was at that commit (another writer may have changed the field since)
+                if vkey in views or vkey not in closed:
+                    continue
+                V = closed.pop(vkey)
+                V["v"].__enter__()
+                V["changed"] = False
+                V["it"] = None
+                views[vkey] = V
+                open_order.append(vkey)
+                got = list(V["v"])
+                if got != V["m"]:
+                    raise Violation("open-view-differs-from-edited-list", op,
+                                    {"step": si, "field": name, "view_lists": got,
+                                     "want": V["m"]})
+                out.probe("committed_view_entered_again")
+                inter.append((name, "reopen"))
+                out.steps += 1
+                continue
             if op == "open":
                 if vkey in views:
                     continue
@@ -405,6 +451,10 @@ def execute(case):
                     exc = None
                 except Exception as e:   # pylint: disable=broad-except
                     exc = repr(e)
+                if op == "commit":
+                    closed[vkey] = views[vkey]
+                    if changed:
+                        closed[vkey]["nl"] = True     # the write-back ends the value on a newline
                 del views[vkey]
                 idx = open_order.index(vkey)
                 if op == "commit" and changed and idx < len(open_order) - 1:
@@ -526,6 +576,28 @@ def execute(case):
                     where.update(view_lists=got, want=m)
                     raise Violation("open-view-differs-from-edited-list", op, where)
                 continue
+            # ---- a reference whose value was removed through it: using it must be refused
+            if op == "stale_ref":
+                if not V.get("dead"):
+                    continue
+                ref = V["dead"][-1]
+                try:
+                    ref.value = st["val"]
+                    exc = None
+                except RuntimeError:
+                    exc = "RuntimeError"
+                except Exception as e:   # pylint: disable=broad-except
+                    exc = type(e).__name__
+                if exc is None:
+                    raise Violation("stale-reference-accepted", op, where)
+                out.probe("stale_reference_refused")
+                log.add(si, "stale_ref", name, exc)
+                inter.append((name, "stale_ref"))
+                out.steps += 1
+                if list(lv) != m or f.dump() != before_doc:
+                    where.update(view_lists=list(lv), want=m)
+                    raise Violation("open-view-differs-from-edited-list", op, where)
+                continue
             # ---- the client starts a new line before its next append
             if op == "append_nl":
                 try:
@@ -553,6 +625,9 @@ def execute(case):
             # ---- edits inside the transaction
             which = st.get("which", 0)
             val = st.get("val")
+            if st.get("same") and m:
+                val = m[which % len(m)]       # the very text that is already there
+                out.probe("same_text_assigned_again")
             expect_err = False
             how = op
             if op == "bad":
@@ -622,6 +697,7 @@ def execute(case):
                             m[k] = val
                     else:
                         ref.remove()
+                        V.setdefault("dead", []).append(ref)
                         slot_removed = slot
                         V["refs"].pop(slot, None)
                         del m[k]
